@@ -95,7 +95,7 @@ FlavourDev(h, e, bad) ==
   ELSE ""
 
 BuildConforms(h, e) ==
-  IF ~Representable(h) THEN e.res.ok = FALSE /\ e.res.stage = "build"      \* refused by the builder, nothing written
+  IF ~Representable(h) THEN e.res.ok = FALSE /\ e.res.stage \in {"build", "serialize"}   \* refused before any file exists
   ELSE \/ e.res.ok = TRUE /\ e.res.count = ExpectCount(h)
        \/ e.res.ok = FALSE /\ RefusalAllowed(h)
 BuildByF03c(h, e) == /\ Known("F03c") /\ G_F03c(h) /\ e.res.ok = TRUE
